@@ -63,8 +63,8 @@ c20_twoseg(K, Cs, L) :- length(F, K), append(F, B, Cs), c20_cc(F, [], FL), c20_a
 c20_assert(S, L) :- retractall(c20_tmp(_)), assertz(c20_tmp(S)), c20_tmp(L), retract(c20_tmp(_)).
 
 c20_t(G, X, R) :- catch(( G -> R = some(X) ; R = none ), error(E, _), R = err(E)).
-% a result that should be a character list is handed back as its code list (flat for the answer channel)
-c20_l(G, X, R) :- catch(( G -> ( c20_codes(X, Cs) -> R = some(codes(Cs)) ; R = some(raw(X)) ) ; R = none ), error(E, _), R = err(E)).
+% a result that should be a character list is handed back as an atom made from its code list (compact for the answer channel)
+c20_l(G, X, R) :- catch(( G -> ( c20_codes(X, Cs) -> atom_codes(At, Cs), R = some(codes(At)) ; R = some(raw(X)) ) ; R = none ), error(E, _), R = err(E)).
 c20_codes(L, Cs) :- L == [], !, Cs = [].
 c20_codes(L, Cs) :- nonvar(L), L = [C|T], atom(C), atom_length(C, 1), char_code(C, X), Cs = [X|Xs], c20_codes(T, Xs).
 c20_b(G, R) :- catch(( G -> R = true ; R = false ), error(E, _), R = err(E)).
@@ -244,12 +244,12 @@ def gen_closed_cases(rng, ctx):
     def add(a, b, cls, big=False):
         k = rng.choice([0, 0, max(0, len(a) - 1), len(a), rng.randint(0, len(a) + 1)])
         cases.append({"a": a, "b": b, "k": k, "cls": cls, "big": big})
-    rounds = ctx.scale(1, 6)
+    rounds = ctx.scale(2, 8)
     for _ in range(rounds):
         # (i) every length 0..20, (ii) 8k-1, 8k, 8k+1 for k <= 9
         lens = list(range(0, 21)) + sorted({8 * k + d for k in range(3, 10) for d in (-1, 0, 1)})
         for n in lens:
-            for alpha in (("ascii", "mixed", "nul") if n <= 20 else ("ascii", "mixed")):
+            for alpha in ("ascii", "mixed", "nul"):
                 a = rand_string(rng, n, alpha)
                 for kind in (["same", "change_last", None] if n <= 20 else ["same", None]):
                     b, _ = near_twin(rng, a, alpha, kind)
@@ -268,19 +268,20 @@ def gen_closed_cases(rng, ctx):
                 b, _ = near_twin(rng, core_s, "nul", kind)
                 add(core_s, b, "nul-pattern")
         # (vii) random
-        for _ in range(80):
+        for _ in range(120):
             alpha = rng.choice(["ascii", "mixed", "mixed", "nul"])
             a = rand_string(rng, rng.choice([1, 2, 3, 5, 7, 8, 9, 12, 15, 16, 17, 24, 31, 33]), alpha)
             b, _ = near_twin(rng, a, alpha)
             add(a, b, "random:" + alpha)
     # (viii) the smallest code point of each UTF-8 length (encodings ending in 0x80 bytes) right across a cell boundary: fixed cases
-    for a in ["abcdefg" + EDGE[1] + "xy", "abcdef" + EDGE[2] + "xy", "abcdefg" + EDGE[0] + "@xy", "abcdefghijklmno" + EDGE[1] + EDGE[2] + "z"]:
+    for a in ["abcdefg" + EDGE[1] + "xy", "abcdef" + EDGE[2] + "xy", "abcdefg" + EDGE[0] + "@xy", "abcdefghijklmno" + EDGE[1] + EDGE[2] + "z",
+              "ab" + EDGE[1] + "xyz", "abcd" + EDGE[1] + "xyz", "a" + EDGE[2] + "xyz"]:
         cases.append({"a": a, "b": a, "k": 8, "cls": "edge", "big": False})
     # (iii) 4095..4097
     for n in (4095, 4096, 4097):
-        for alpha in (("ascii", "mixed") if ctx.thorough else ("ascii", "mixed")):
+        for alpha, kinds in (("ascii", ("same",)), ("mixed", ("change_last",))) if not ctx.thorough else (("ascii", ("same", "change_last")), ("mixed", ("same", "change_last"))):
             a = rand_string(rng, n, alpha)
-            for kind in ("same", "change_last"):
+            for kind in kinds:
                 b, _ = near_twin(rng, a, alpha, kind)
                 add(a, b, "long:" + alpha, big=True)
     return cases
@@ -289,7 +290,7 @@ def gen_closed_cases(rng, ctx):
 def gen_tail_cases(rng, ctx):
     """suffixes of strings: base length 7..17, every offset 0..9; both sides are tails taken from literals / atom_chars strings"""
     cases = []
-    for _ in range(ctx.scale(1, 6)):
+    for _ in range(ctx.scale(2, 8)):
         for n in range(7, 18):
             for off in range(0, 10):
                 if off > n: continue
@@ -351,7 +352,7 @@ def reps_partial(pre, kind, T, rng):
 
 def gen_partial_cases(rng, ctx):
     cases = []
-    for _ in range(ctx.scale(1, 6)):
+    for _ in range(ctx.scale(2, 8)):
         lens = list(range(0, 13)) + [15, 16, 17, 23, 24, 25]
         for n in lens:
             for alpha in ("ascii", "mixed", "nul"):
@@ -383,7 +384,7 @@ def some(t):
     return t[2][0] if (t[0] == "cmp" and t[1] == "some" and len(t[2]) == 1) else None
 
 
-def decode_obs(o):
+def decode_obs(o, share=None):
     """term o(...) -> (coq record text, shape errors [(field, text)], writeq text, per-field python values)"""
     a = o[2]
     bad, vals = [], {}
@@ -397,15 +398,17 @@ def decode_obs(o):
         if t is not None and t[0] == "int": return str(t[1])
         bad.append((FIELDS[i], terms.to_prolog(a[i]))); return "0"
     def codelist(t):
-        if t is None or not (t[0] == "cmp" and t[1] == "codes"): return None
-        items, tail = terms.list_view(t[2][0])
-        if tail != NIL or any(x[0] != "int" for x in items): return None
-        return [x[1] for x in items]
+        if t is None or not (t[0] == "cmp" and t[1] == "codes") or t[2][0][0] != "atom": return None
+        return [ord(ch) for ch in t[2][0][1]]
     def chars(i):
         cl = codelist(some(a[i]))
         if cl is None:
             bad.append((FIELDS[i], terms.to_prolog(a[i])[:200])); return "[]"
-        return "[" + ";".join(map(str, cl)) + "]"
+        txt = "[" + ";".join(map(str, cl)) + "]"
+        if share:
+            for name, t in share.items():
+                if txt == t and len(cl) > 8: return name
+        return txt
     def optchar(i):
         t = some(a[i])
         if t is not None and t[0] == "atom" and len(t[1]) == 1: return "(Some %d)" % ord(t[1])
@@ -514,13 +517,14 @@ def run_queries(ctx, queries, tag, per_job=150):
     """queries: list of (qid, text, extra_consult). Returns {qid: first answer (json) or a dict describing why there is none}.
     (The harness rebuilds the machine and consults the job's text again after a panic.)"""
     out = {}
-    heavy = [q for q in queries if len(q[1]) > 3000]       # long strings: spread over many small jobs
-    light = [q for q in queries if len(q[1]) <= 3000]
-    chunks = [light[j:j + per_job] for j in range(0, len(light), per_job)] + [heavy[j:j + 4] for j in range(0, len(heavy), 4)]
+    alone = [q for q in queries if q[2].startswith("% alone")]     # known to panic: one fresh machine each, so that the outcome does not depend on the seed
+    heavy = [q for q in queries if len(q[1]) > 3000 and q not in alone]       # long strings: spread over many small jobs
+    light = [q for q in queries if len(q[1]) <= 3000 and q not in alone]
+    chunks = [light[j:j + per_job] for j in range(0, len(light), per_job)] + [heavy[j:j + 4] for j in range(0, len(heavy), 4)] + [[q] for q in alone]
     jobs = []
     for n, chunk in enumerate(chunks):
         consult = LIB + "".join(q[2] for q in chunk if q[2])
-        jobs.append({"id": "%s_%d" % (tag, n), "consult": consult, "queries": [q[1] for q in chunk], "max_answers": 1, "timeout_ms": 20000, "fresh": True})
+        jobs.append({"id": "%s_%d" % (tag, n), "consult": consult, "queries": [q[1] for q in chunk], "max_answers": 1, "timeout_ms": 120000, "fresh": True})
     res = core.vrun_query(ctx.prop, jobs, tag=tag)
     for job, chunk in zip(jobs, chunks):
         rec = res.get(job["id"], {})
@@ -576,34 +580,17 @@ def panic_class(ans):
     return None
 
 
-def recheck(ctx, qlist, answers, group_of, tag, max_panic_groups=40):
-    """Every query whose answer is not the majority observation of its case is run again alone on a fresh machine
-    (its first answer may have been disturbed by an earlier panic on the shared machine).  Panicking queries are
-    sampled (two per panic class and shape pair).  Returns the list of queries that panicked again (for bisecting)."""
-    by_case = {}
-    for q in qlist: by_case.setdefault(group_of[q[0]][0], []).append(q)
-    suspects, panics = [], {}
-    for ci, qs in by_case.items():
-        counts = {}
-        for q in qs:
-            k = obs_key(answers.get(q[0]))
-            if k is not None: counts[k] = counts.get(k, 0) + 1
-        major = max(counts, key=lambda k: counts[k]) if counts else None
-        for q in qs:
-            a = answers.get(q[0])
-            if obs_key(a) is not None and obs_key(a) == major: continue
-            pc = panic_class(a)
-            if pc is not None:
-                g = (pc, SHAPE[group_of[q[0]][1]], SHAPE[group_of[q[0]][2]])
-                panics.setdefault(g, []).append(q)
-            else:
-                suspects.append(q)
-    for g, qs in sorted(panics.items())[:max_panic_groups]:
-        suspects += qs[:2]
-    if suspects:
-        answers.update(run_queries(ctx, suspects, tag, per_job=1))
-    sus = {q[0] for q in suspects}
-    return [q for q in suspects if panic_class(answers.get(q[0])) is not None], sus
+def sample_panics(qlist, answers, info, max_groups=40):
+    """two panicking queries per (panic message class, shape of A, shape of B)"""
+    panics = {}
+    for q in qlist:
+        pc = panic_class(answers.get(q[0]))
+        if pc is not None:
+            panics.setdefault((pc, SHAPE[info[q[0]][1]], SHAPE[info[q[0]][2]]), []).append(q)
+    out = []
+    for g, qs in sorted(panics.items())[:max_groups]:
+        out += qs[:2]
+    return out
 
 
 def bisect(ctx, panicking, qparts, opnames, tag):
@@ -613,7 +600,7 @@ def bisect(ctx, panicking, qparts, opnames, tag):
     for q in panicking:
         prefix, mk = qparts[q[0]]
         jobs.append({"id": "b_" + q[0], "consult": LIB + (q[2] or ""), "queries": [prefix + mk(op) for op in opnames],
-                     "max_answers": 1, "timeout_ms": 20000, "fresh": True})
+                     "max_answers": 1, "timeout_ms": 120000, "fresh": True})
     res = core.vrun_query(ctx.prop, jobs, tag=tag) if jobs else {}
     out = {}
     for q in panicking:
@@ -659,17 +646,17 @@ def run(ctx):
         dist["byte_len_mod8"][m] = dist["byte_len_mod8"].get(m, 0) + 1
         if "base_a" in c:
             ra, rb = reps_tail(c["base_a"], c["off_a"], rng), reps_tail(c["base_b"], c["off_b"], rng)
-            pairs = rng.sample([(x, y) for x in ra[:5] for y in rb[:5]], 8) + [(ra[5], y) for y in rng.sample(rb[:5], 2)] + [(x, rb[6]) for x in rng.sample(ra[:5], 2)]
+            pairs = rng.sample([(x, y) for x in ra[:5] for y in rb[:5]], 14) + [(ra[5], y) for y in rng.sample(rb[:5], 3)] + [(x, rb[6]) for x in rng.sample(ra[:5], 3)]
         else:
             ra, rb = reps_closed(a, rng, big, c["cls"] == "edge"), reps_closed(b, rng, big, c["cls"] == "edge")
             if big:
                 pairs = [(ra[0], rb[0])] + [(ra[0], y) for y in rng.sample(rb[1:], 3)] + [(x, rb[0]) for x in rng.sample(ra[1:], 3)] + [(ra[4], rb[5]), (ra[6], rb[4])]
             else:
-                pairs = [(ra[0], rb[0])] + [(ra[0], y) for y in rng.sample(rb[1:], 5)] + [(x, rb[0]) for x in rng.sample(ra[1:], 5)] + [(rng.choice(ra), rng.choice(rb)) for _ in range(3)]
+                pairs = [(ra[0], rb[0])] + [(ra[0], y) for y in rng.sample(rb[1:], 8)] + [(x, rb[0]) for x in rng.sample(ra[1:], 8)] + [(rng.choice(ra), rng.choice(rb)) for _ in range(5)]
             if c["cls"] == "edge":      # fixed: every construction path of a against the literal b
                 pairs = [(x, rb[0]) for x in ra]
         for (ka, ga), (kb, gb) in pairs:
-            addq(queries, "c%d_%d" % (ci, len(queries)), "%s, %s, " % (ga("A"), gb("B")), big, c["k"], "", (ci, ka, kb))
+            addq(queries, "c%d_%d" % (ci, len(queries)), "%s, %s, " % (ga("A"), gb("B")), big, c["k"], "% alone\n" if c["cls"] == "edge" else "", (ci, ka, kb))
         # strings in clause heads / bodies (separate jobs: a rejected clause must not disturb the others)
         if not big and "base_a" not in c and rng.random() < 0.5:
             n = len(clause_queries)
@@ -683,16 +670,15 @@ def run(ctx):
     answers.update(run_queries(ctx, clause_queries, "qk", per_job=40))
     allq = queries + clause_queries
     phase["closed_queries"] = round(time.time() - t_start, 1)
-    panicking, rerun = recheck(ctx, allq, answers, qinfo, "qr")
-    dist["queries_rerun_alone"] = len(rerun)
-    dist["queries_panicking_first_pass"] = sum(1 for q in allq if panic_class(answers.get(q[0])) is not None)
+    panicking = sample_panics(allq, answers, qinfo)
+    dist["queries_panicking"] = sum(1 for q in allq if panic_class(answers.get(q[0])) is not None)
     qtext_of = {q[0]: q[1] + ("   %% with clauses: " + q[2].replace("\n", " ") if q[2] else "") for q in allq}
     ops = [f for f in FIELDS]
     for qid, found in bisect(ctx, panicking, qparts, ops, "qb").items():
         ci, ka, kb = qinfo[qid]
         msg = str(answers[qid].get("panic"))[:200]
         if not found:
-            fail(shape_key("panic", ka, kb, "pstr:"), "observing a string panics (no single operation panics when run alone)", qtext_of[qid][:700], "panic: " + msg, "an observation")
+            fail(shape_key("panic", ka, kb, "pstr:"), "observing a string panics (but no single operation panics when run alone on a fresh machine)", qtext_of[qid][:700], "panic: " + msg, "an observation")
         for op, m in found:
             prefix, mk = qparts[qid]
             fail(shape_key(op, ka, kb), "operation `%s` on a string panics" % op, (prefix + mk(op))[:700], "panic: " + m, "the result the operation gives on the character list")
@@ -714,7 +700,7 @@ def run(ctx):
         c = allcases[ci]
         obs_groups = []
         for key, members in groups.items():
-            rec, bad, wtext = decode_obs(terms.from_json(members[0][3]))
+            rec, bad, wtext = decode_obs(terms.from_json(members[0][3]), {"sa": coq_codes(c["a"]), "sb": coq_codes(c["b"])})
             for (field, txt) in bad:
                 for (qid, ka, kb, _) in members[:2]:
                     fail(shape_key(field, ka, kb), "operation `%s` on a string gave a result of an unexpected shape (error, failure or not a character list)" % field,
@@ -722,7 +708,7 @@ def run(ctx):
             obs_groups.append((rec, wtext, members))
         if len(obs_groups) > 1: n_multi += 1
         for (rec, wtext, members) in obs_groups:
-            bools.append("check_obs %s %s %d %s" % (coq_codes(c["a"]), coq_codes(c["b"]), c["k"], rec))
+            bools.append("(fun sa sb => check_obs sa sb %d %s) %s %s" % (c["k"], rec, coq_codes(c["a"]), coq_codes(c["b"])))
             binfo.append((ci, rec, members))
         # writeq: compared between the construction paths only
         ws = {}
@@ -734,28 +720,6 @@ def run(ctx):
                 if wtext == major: continue
                 for (qid, ka, kb, _) in members[:2]:
                     fail(shape_key("writeq", ka, kb), "writeq text of a string depends on how the string was built", qtext_of[qid][:700], repr(wtext), repr(major))
-    phase["closed_before_coq"] = round(time.time() - t_start, 1)
-    bad_idx, errs = core.coq_eval_bools(ctx.prop, IMPORTS, bools, chunk=ctx.scale(300, 500), tag="ca")
-    for _, t in errs:
-        tie_breaks.append({"kind": "coq-eval", "what": "model evaluation shard failed (closed strings)", "detail": t[-1500:]})
-    show = bad_idx[:16]
-    if show:
-        expr = "[" + "; ".join("diff_obs %s %s %d %s" % (coq_codes(allcases[binfo[i][0]]["a"]), coq_codes(allcases[binfo[i][0]]["b"]), allcases[binfo[i][0]]["k"], binfo[i][1]) for i in show) + "]"
-        txt = core.coq_eval_show(ctx.prop, IMPORTS, expr)
-        m = re.search(r"=\s*\[(.*)\]\s*:\s*list \(list N\)", txt)
-        groups = re.findall(r"\[([0-9; ]*)\]", m.group(1)) if m else []
-        for j, i in enumerate(show):
-            ci, rec, members = binfo[i]
-            c = allcases[ci]
-            fields = [FIELDS[int(x)] for x in groups[j].split(";") if x.strip()] if j < len(groups) else ["unknown"]
-            for field in fields[:4]:
-                for (qid, ka, kb, _) in members[:2]:
-                    fail(shape_key(field, ka, kb), "operation `%s` on a string differs from the same operation on the character list it denotes" % field,
-                         qtext_of[qid][:700], rec[:600], "predict %s %s %d (field %s)" % (coq_codes(c["a"])[:200], coq_codes(c["b"])[:200], c["k"], field))
-    for i in bad_idx[16:]:
-        ci, rec, members = binfo[i]
-        qid, ka, kb, _ = members[0]
-        fail(shape_key("some-operation", ka, kb), "an observation differs from the prediction on character lists", qtext_of[qid][:700], rec[:600], "predict")
     n_closed = len(bools)
     phase["closed_done"] = round(time.time() - t_start, 1)
 
@@ -778,8 +742,8 @@ def run(ctx):
             pparts[qid] = (prefix, lambda op, tb=tb: "c20_pop(%s, A, TA, B, %s, R)." % (op, tb))
     dist["rep_pairs"] += len(pq)
     pans = run_queries(ctx, pq, "qp", per_job=ctx.scale(200, 400))
-    ppanicking, prerun = recheck(ctx, pq, pans, pinfo, "qpr")
-    dist["queries_rerun_alone"] += len(prerun)
+    ppanicking = sample_panics(pq, pans, pinfo)
+    dist["queries_panicking"] += sum(1 for q in pq if panic_class(pans.get(q[0])) is not None)
     ptext = {q[0]: q[1] for q in pq}
     for qid, found in bisect(ctx, ppanicking, pparts, PFIELDS, "qpb").items():
         pi, ka, kb = pinfo[qid]
@@ -807,26 +771,6 @@ def run(ctx):
     for (pi, na, nb, rec), members in pgroups.items():
         pbools.append(pexpr("check_pobs", pi, na, nb, rec))
         pbinfo.append((pi, na, nb, rec, members))
-    pbad, errs = core.coq_eval_bools(ctx.prop, IMPORTS, pbools, chunk=ctx.scale(300, 500), tag="cp")
-    for _, t in errs:
-        tie_breaks.append({"kind": "coq-eval", "what": "model evaluation shard failed (partial strings)", "detail": t[-1500:]})
-    show = pbad[:16]
-    if show:
-        txt = core.coq_eval_show(ctx.prop, IMPORTS, "[" + "; ".join(pexpr("diff_pobs", *pbinfo[i][:4]) for i in show) + "]")
-        m = re.search(r"=\s*\[(.*)\]\s*:\s*list \(list N\)", txt)
-        groups = re.findall(r"\[([0-9; ]*)\]", m.group(1)) if m else []
-        for j, i in enumerate(show):
-            pi, na, nb, rec, members = pbinfo[i]
-            fields = [PFIELDS[int(x)] for x in groups[j].split(";") if x.strip()] if j < len(groups) else ["unknown"]
-            for field in fields[:4]:
-                for (qid, ka, kb) in members[:2]:
-                    fail(shape_key(field, ka, kb, "pstr:partial-"), "operation `%s` on a partial string differs from the same operation on the open character list" % field,
-                         ptext[qid][:700], rec[:600], "ppredict (field %s), tails numbered %d/%d" % (field, na, nb))
-    for i in pbad[16:]:
-        pi, na, nb, rec, members = pbinfo[i]
-        qid, ka, kb = members[0]
-        fail(shape_key("some-operation", ka, kb, "pstr:partial-"), "an observation of a partial string differs from the prediction", ptext[qid][:700], rec[:600], "ppredict")
-
     phase["partial_done"] = round(time.time() - t_start, 1)
     # ============================================================ layout tie through the heap hook
     lstrings = []
@@ -878,9 +822,61 @@ def run(ctx):
             sc, tl = p.split(":")
             e += " && check_scan_at %s %d [%s] %s" % (blist, loc, ";".join(map(str, bytes.fromhex(sc))), tl)
         lbools.append(e); lidx.append(i)
-    lbad, errs = core.coq_eval_bools(ctx.prop, IMPORTS, lbools, chunk=300, tag="cl")
-    for _, t in errs:
-        tie_breaks.append({"kind": "coq-eval", "what": "model evaluation shard failed (layout)", "detail": t[-1500:]})
+    # ============================================================ all model evaluations in one sharded run
+    phase["before_coq"] = round(time.time() - t_start, 1)
+    allb = bools + pbools + lbools
+    heavy_i = [i for i in range(len(allb)) if len(allb[i]) > 20000]
+    light_i = [i for i in range(len(allb)) if len(allb[i]) <= 20000]
+    chunk = ctx.scale(110, 400)
+    order = []
+    while light_i or heavy_i:        # at most two long-string evaluations per shard (parsing their literals dominates)
+        take = heavy_i[:2]; heavy_i = heavy_i[2:]
+        room = chunk - len(take)
+        take += light_i[:room]; light_i = light_i[room:]
+        order += take
+    bad_all, errs_all = core.coq_eval_bools(ctx.prop, IMPORTS, [allb[i] for i in order], chunk=chunk, tag="call")
+    bad_all = sorted(order[j] for j in bad_all)
+    for _, t in errs_all:
+        tie_breaks.append({"kind": "coq-eval", "what": "model evaluation shard failed", "detail": t[-1500:]})
+    bad_idx = [i for i in bad_all if i < len(bools)]
+    pbad = [i - len(bools) for i in bad_all if len(bools) <= i < len(bools) + len(pbools)]
+    lbad = [i - len(bools) - len(pbools) for i in bad_all if i >= len(bools) + len(pbools)]
+    phase["after_coq"] = round(time.time() - t_start, 1)
+    show = bad_idx[:16]
+    if show:
+        expr = "[" + "; ".join("(fun sa sb => diff_obs sa sb %d %s) %s %s" % (allcases[binfo[i][0]]["k"], binfo[i][1], coq_codes(allcases[binfo[i][0]]["a"]), coq_codes(allcases[binfo[i][0]]["b"])) for i in show) + "]"
+        txt = core.coq_eval_show(ctx.prop, IMPORTS, expr)
+        m = re.search(r"=\s*\[(.*)\]\s*:\s*list \(list N\)", txt)
+        groups = re.findall(r"\[([0-9; ]*)\]", m.group(1)) if m else []
+        for j, i in enumerate(show):
+            ci, rec, members = binfo[i]
+            c = allcases[ci]
+            fields = [FIELDS[int(x)] for x in groups[j].split(";") if x.strip()] if j < len(groups) else ["unknown"]
+            for field in fields[:4]:
+                for (qid, ka, kb, _) in members[:2]:
+                    fail(shape_key(field, ka, kb), "operation `%s` on a string differs from the same operation on the character list it denotes" % field,
+                         qtext_of[qid][:700], rec[:600], "predict %s %s %d (field %s)" % (coq_codes(c["a"])[:200], coq_codes(c["b"])[:200], c["k"], field))
+    for i in bad_idx[16:]:
+        ci, rec, members = binfo[i]
+        qid, ka, kb, _ = members[0]
+        fail(shape_key("some-operation", ka, kb), "an observation differs from the prediction on character lists", qtext_of[qid][:700], rec[:600], "predict")
+    show = pbad[:16]
+    if show:
+        txt = core.coq_eval_show(ctx.prop, IMPORTS, "[" + "; ".join(pexpr("diff_pobs", *pbinfo[i][:4]) for i in show) + "]")
+        m = re.search(r"=\s*\[(.*)\]\s*:\s*list \(list N\)", txt)
+        groups = re.findall(r"\[([0-9; ]*)\]", m.group(1)) if m else []
+        for j, i in enumerate(show):
+            pi, na, nb, rec, members = pbinfo[i]
+            fields = [PFIELDS[int(x)] for x in groups[j].split(";") if x.strip()] if j < len(groups) else ["unknown"]
+            for field in fields[:4]:
+                for (qid, ka, kb) in members[:2]:
+                    fail(shape_key(field, ka, kb, "pstr:partial-"), "operation `%s` on a partial string differs from the same operation on the open character list" % field,
+                         ptext[qid][:700], rec[:600], "ppredict (field %s), tails numbered %d/%d" % (field, na, nb))
+    for i in pbad[16:]:
+        pi, na, nb, rec, members = pbinfo[i]
+        qid, ka, kb = members[0]
+        fail(shape_key("some-operation", ka, kb, "pstr:partial-"), "an observation of a partial string differs from the prediction", ptext[qid][:700], rec[:600], "ppredict")
+
     for j in lbad[:5]:
         s, bs, locs = linfo[lidx[j]]
         tie_breaks.append({"kind": "correspondence", "key": "pstr:layout-differs", "what": "heap bytes / scan result of allocate_pstr differ from encode_segment / scan (layout changed?)",
